@@ -41,6 +41,42 @@ def _enclosing_fn(node: ast.AST, parents: dict[int, ast.AST]):
     return node
 
 
+def _manager_escapes(rel: str, tree: ast.Module, parents: dict[int, ast.AST]) -> None:
+    """Fail-closed: an ID manager may only be the receiver of a method call (those calls are what the census
+    classifies), be created in VMF.__init__, or be read (membership, len, iteration).  A manager that is bound to
+    a local name, passed to a function, stored or returned could be released through the alias without the census
+    seeing it.  Attributes of the same name that a class declares as a plain field (Solid.group_id: an integer)
+    are not managers."""
+    fields = {c.name: {st.target.id for st in c.body if isinstance(st, ast.AnnAssign) and isinstance(st.target, ast.Name)
+                       and 'IDMan' not in ast.unparse(st.annotation)}
+              for c in ast.walk(tree) if isinstance(c, ast.ClassDef)}
+    for cls, fn, node in _enclosing(tree):
+        if not (isinstance(node, ast.Attribute) and node.attr in KINDS):
+            continue
+        if node.attr in fields.get(cls, ()) and isinstance(node.value, ast.Name) and node.value.id == 'self':
+            continue
+        p = parents.get(id(node))
+        if isinstance(node.ctx, ast.Store):
+            if cls == 'VMF' and fn == '__init__' and isinstance(p, ast.Assign) and isinstance(p.value, ast.Call):
+                continue
+            raise TranslateError(f'{rel}:{node.lineno}: the ID manager `{ast.unparse(node)}` is replaced outside VMF.__init__')
+        if isinstance(node.ctx, ast.Del):
+            raise TranslateError(f'{rel}:{node.lineno}: the ID manager `{ast.unparse(node)}` is deleted')
+        if isinstance(p, ast.Attribute) and p.value is node:
+            pp = parents.get(id(p))
+            if isinstance(pp, ast.Call) and pp.func is p:
+                continue            # a method call on the manager: classified by the census
+        if isinstance(p, ast.Compare) and any(node is c for c in p.comparators) and all(isinstance(o, (ast.In, ast.NotIn)) for o in p.ops):
+            continue
+        if isinstance(p, ast.Call) and isinstance(p.func, ast.Name) and p.func.id in ('len', 'sorted', 'list', 'set', 'frozenset', 'iter', 'max', 'min') \
+                and len(p.args) == 1 and p.args[0] is node and not p.keywords:
+            continue
+        if isinstance(p, (ast.For, ast.comprehension)) and p.iter is node:
+            continue
+        raise TranslateError(f'{rel}:{node.lineno}: the ID manager `{ast.unparse(node)}` is bound to a name, passed on or stored: '
+                             'releases through the alias could not be classified')
+
+
 def translate() -> tuple[str, dict]:
     releases: list[tuple[str, str, str, int]] = []   # kind, site, func, line
     pending: list[tuple[str, str, str, int]] = []    # discard/remove calls on a manager: kind, class, func, line
@@ -58,6 +94,7 @@ def translate() -> tuple[str, dict]:
     for rel in ('vmf.py', 'instancing.py'):
         tree = trees[rel] = ast.parse(src_text(rel))
         parents_of[rel] = c08_keys.parent_map(tree)
+        _manager_escapes(rel, tree, parents_of[rel])
         for cls, fn, node in _enclosing(tree):
             # calls on managers
             if isinstance(node, ast.Call) and isinstance(node.func, ast.Attribute) \
@@ -87,6 +124,12 @@ def translate() -> tuple[str, dict]:
                         ok = (isinstance(v, ast.Call) and isinstance(v.func, ast.Attribute) and v.func.attr == 'get_id'
                               and isinstance(v.func.value, ast.Attribute) and v.func.value.attr in KINDS)
                         id_stores.append((f'{cls}.{fn}', node.lineno, ok))
+                    elif isinstance(tgt, (ast.Tuple, ast.List)) and rel == 'vmf.py' and cls not in ('FixupValue', None) \
+                            and any(isinstance(e, ast.Attribute) and e.attr == 'id' for e in ast.walk(tgt)):
+                        id_stores.append((f'{cls}.{fn} (unpacking)', node.lineno, False))
+            if isinstance(node, (ast.AugAssign, ast.AnnAssign)) and isinstance(node.target, ast.Attribute) and node.target.attr == 'id' \
+                    and rel == 'vmf.py' and cls not in ('FixupValue', None):
+                id_stores.append((f'{cls}.{fn} (in-place)', node.lineno, False))
         side['files'][rel] = {'n_release': len(releases) + len(pending), 'n_acquire': len(acquires)}
         if rel == 'vmf.py':
             # IDMan digest (hand-modelled; a change escalates the correspondence budget)
@@ -132,6 +175,17 @@ def translate() -> tuple[str, dict]:
         raise TranslateError('EntityFixup.__init__/__setitem__ not recognised')
     if 'idman_digest' not in side:
         raise TranslateError('class IDMan not found')
+    # the managers are not touched by any other module (fail-closed: such a module would have to join the census)
+    for path in sorted(SRC.rglob('*.py')):
+        rel = path.relative_to(SRC).as_posix()
+        if rel in trees:
+            continue
+        text = path.read_text(encoding='utf8')
+        if any('.' + a in text for a in KINDS if a != 'group_id'):
+            for n in ast.walk(ast.parse(text)):
+                if isinstance(n, ast.Attribute) and n.attr in KINDS and n.attr != 'group_id':
+                    raise TranslateError(f'{rel}:{n.lineno}: `{ast.unparse(n)}`: an ID manager is used outside vmf.py / instancing.py, '
+                                         'which the census does not cover')
     copy_rows = _copy_census(trees['vmf.py'], trees['instancing.py'])
     node_realloc, node_in_del = _node_shape(trees['vmf.py'], acquires, releases)
     # round 3: every way a key can enter an entity's private keyvalue dictionary (all modules that mention it)
